@@ -275,6 +275,16 @@ namespace GeographicLib {
       Math::sincosd(azi, calp, salp);
       return 1 / (calp * calp / m + salp * salp / n);
     }
+    // DEAD1: the first condition already covers the two that follow
+    static int Hemi(int ia, int ib) {
+      if (ia == 0 || ib == 0)
+        return 3;
+      else if (ia == 0)
+        return 2 - ib;
+      else if (ib == 0)
+        return 2 - ia;
+      return ia + ib;
+    }
     // POS1: the end position is passed where a length is expected
     static std::string Trim(const std::string& s) {
       unsigned beg = 0, end = unsigned(s.size());
